@@ -16,6 +16,10 @@
                                      complete interval data, price keys, arrays, numbers (reform_params re-draws the forms of any scenario)
   complete_defaults(scn)             the scenario with the documented default of such parameters WRITTEN OUT as explicit intervals over
                                      the rest of time (expectation of the metamorphic default oracle of C07)
+  gen_degenerate_portfolio(rnd, tmax) portfolios with dispatch rows of FACTOR ZERO (commodity factor 0, order of capacity 0, fuel per start /
+                                     if on 0; stand-alone, as base of a scaled asset, inside a structured asset, on a coarser frequency) at
+                                     nodes where at some steps nothing else dispatches (the other assets start later / end earlier / are
+                                     absent), plus zero capacities
 """
 import pandas as pd
 
@@ -590,3 +594,221 @@ def complete_defaults(scn):
                     args[p] = r[0]
                     changed.append('%s.%s' % (spec['name'], p))
     return s2, changed
+
+
+# ------------------------------------------------------------------------------------------ degenerate quantities: factor zero
+# Dispatch rows whose factor is ZERO are rows like all others: the variable is mapped to that node and step, so the (node, step) "has
+# dispatch" and gets its nodal row and its entry in the nodal record (the row may read 0 = 0).  Legitimate parameters that produce them:
+#   MultiCommodityContract  factors_commodities with a 0 (a commodity switched off) at any position, possibly all of them
+#   OrderBook               an order with capa 0
+#   Plant / CHPAsset        consumption_if_on = 0 / start_fuel = 0 written out (number, zeros as interval data / price key, interval data
+#                           covering part of the window with the default 0 elsewhere) with a fuel node: rows of the booleans at the fuel node
+#   the same wrapped        base of a ScaledAsset, inside a StructuredAsset (zero factor at the external or at the internal node),
+#                           on the asset's own coarser frequency (weight * 0)
+# (a transport's efficiency and a plant's fuel efficiency / conversion factor must not be 0: refused by the package.)
+# The zero rows only make a difference where nothing else dispatches at the node and step: the other assets of such "quiet" nodes live
+# outside a dead zone (start later / end earlier / gone), zero capacities (l = u = 0) are mixed in as further degenerate companions.
+ZERO_CARRIERS = ['multi', 'multi', 'multi', 'multi', 'orderbook', 'orderbook', 'orderbook', 'plant_fuel', 'chp_fuel', 'scaled_multi',
+                 'scaled_orderbook', 'structured_multi', 'structured_orderbook', 'coarse_multi']
+
+
+def zero_factors(rnd, n):
+    """factors of a multi-commodity contract over n nodes with at least one 0 (all 0 now and then)"""
+    f = [rnd.choice([1.0, 0.5, -1.0, 2.0, 0.25, -0.5]) for _ in range(n)]
+    if rnd.random() < 0.1:
+        return [0.0] * n
+    for i in rnd.sample(range(n), rnd.randint(1, n - 1)):
+        f[i] = rnd.choice([0.0, 0.0, 0])
+    return f
+
+
+def zero_orders(rnd, g, a):
+    """some (now and then all) orders of an order book get capacity 0; mostly one more zero order inside the horizon"""
+    o = a['args']['orders']
+    T = g['T_nominal']
+    if rnd.random() < 0.7:
+        x = rnd.randint(0, T - 1)
+        y = rnd.randint(x + 1, T)
+        s, e = gen.P(g, x), gen.P(g, y)
+        if rnd.random() < 0.15:
+            s = gen.P(g, -2)
+        if gen.ok_local(s, g) and gen.ok_local(e, g):
+            k = rnd.randint(0, len(o['start']))
+            o['start'].insert(k, gen.dtv(s))
+            o['end'].insert(k, gen.dtv(e))
+            o['capa'].insert(k, 0.0)
+            o['price'].insert(k, gen.q8(rnd, -2, 15))
+    n = len(o['capa'])
+    allz = rnd.random() < 0.25
+    for i in range(n):
+        if allz or rnd.random() < 0.4:
+            o['capa'][i] = 0.0
+    if not any(c == 0 for c in o['capa']):
+        o['capa'][rnd.randrange(n)] = 0.0
+    return a
+
+
+def zero_fuel(rnd, g, prices, T, a):
+    """consumption if on / start fuel of a plant with fuel node: zero, written out in one of the accepted forms"""
+    args = a['args']
+    if 'min_cap' not in args and 'start_costs' not in args and rnd.random() < 0.8:
+        args['min_cap'] = gen.q8(rnd, 0.5, 2)
+    try:
+        steps = _window_steps(g, args)
+    except Exception:
+        steps = []
+    which = rnd.choice([['consumption_if_on'], ['start_fuel'], ['consumption_if_on', 'start_fuel']])
+    for p in which:
+        form, v = draw_form(rnd, g, prices, T, 0, 0, steps, 0.0, ['scalar', 'scalar', 'full', 'partial', 'key'])
+        args[p] = v
+    if 'start_fuel' in which and 'start_costs' not in args:
+        args['start_costs'] = gen.q8(rnd, 0.5, 4)
+    return a
+
+
+def gen_degenerate_portfolio(rnd, tmax=12):
+    """a random portfolio with dispatch rows of factor zero (see above), drawn as a family: one or two carriers of zero factors of any
+    kind, companions of all simple kinds (markets, contracts, storages, transports, order books, zero capacities).  The nodes at which
+    a carrier has zero rows are mostly 'quiet': the companions touching them live outside a dead zone [d1, d2) of the horizon (d1 = 0:
+    they all start later; d2 = T: they all end earlier; whole horizon: there are none), so that at some steps the zero rows are the
+    only dispatch of the node."""
+    from .. import scen
+    g = gen.gen_grid(rnd, tmin=min(3, tmax), tmax=tmax, tz_prob=0.1)
+    T = scen.make_grid(g).T
+    prices = {}
+    nn = rnd.randint(2, 4)
+    node_names = rnd.sample(gen.NAMES_ADV, nn) if rnd.random() < 0.12 else ['N%d' % i for i in range(1, nn + 1)]
+    all_nodes = list(node_names)
+    carriers, companions, quiet, what = [], [], set(), []
+
+    def multi(nm, nodes):
+        a = gen.gen_multi(rnd, g, prices, T, nm, nodes)
+        a['args']['factors_commodities'] = zero_factors(rnd, len(nodes))
+        return a
+
+    def zero_nodes(a):
+        return [n for n, f in zip(a['nodes'], a['args']['factors_commodities']) if f == 0]
+
+    for ci in range(rnd.choice([1, 1, 1, 2])):
+        kind = rnd.choice(ZERO_CARRIERS)
+        nm = 'z%d' % (ci + 1)
+        k = 3 if (nn >= 3 and rnd.random() < 0.35) else 2
+        if kind in ('multi', 'coarse_multi'):
+            a = multi(nm, rnd.sample(node_names, k))
+            quiet.update(zero_nodes(a))
+            if kind == 'coarse_multi':
+                mult = rnd.choice([2, 2, 3, 4])
+                tot = g['step_s'] * mult
+                if T % mult == 0:
+                    a['args']['freq'] = ('%dmin' % (tot // 60)) if tot % 3600 else ('%dh' % (tot // 3600))
+                else:
+                    kind = 'multi'
+            if kind == 'multi' and rnd.random() < 0.3:
+                gen.put_window(a['args'], gen.window(rnd, g, kinds=['inside', 'start_only', 'end_only', 'straddle_start', 'straddle_end', 'offgrid']))
+        elif kind == 'orderbook':
+            a = zero_orders(rnd, g, gen.gen_orderbook(rnd, g, prices, T, nm, rnd.choice(node_names), allow_mip=rnd.random() < 0.3))
+            quiet.add(a['nodes'][0])
+        elif kind in ('plant_fuel', 'chp_fuel'):
+            chp = kind == 'chp_fuel' and nn >= 3
+            a = zero_fuel(rnd, g, prices, T, gen.gen_plant(rnd, g, prices, T, nm, rnd.sample(node_names, 3 if chp else 2), chp=chp, allow_mip=True))
+            quiet.add(a['nodes'][-1])
+            if rnd.random() < 0.3:
+                gen.put_window(a['args'], gen.window(rnd, g, kinds=['inside', 'start_only', 'end_only', 'straddle_start', 'straddle_end']))
+        elif kind in ('scaled_multi', 'scaled_orderbook'):
+            if kind == 'scaled_multi':
+                base = multi(nm + '_b', rnd.sample(node_names, k))
+                quiet.update(zero_nodes(base))
+            else:
+                base = zero_orders(rnd, g, gen.gen_orderbook(rnd, g, prices, T, nm + '_b', rnd.choice(node_names), allow_mip=False))
+                quiet.add(base['nodes'][0])
+            a = {'type': 'ScaledAsset', 'name': nm, 'base': base,
+                 'args': {'min_scale': rnd.choice([0.0, 0.0, 0.5]), 'max_scale': rnd.choice([1.0, 2.0, 4.0]), 'norm_scale': rnd.choice([1.0, 2.0, 0.5]),
+                          'fix_costs': gen.q8(rnd, 0, 1)}}
+        else:
+            ext, inn = rnd.choice(node_names), nm + '_i1'
+            all_nodes.append(inn)
+            if kind == 'structured_multi':
+                first = multi(nm + '_m', rnd.sample([inn, ext], 2))
+                quiet.update(n for n in zero_nodes(first) if n == ext)
+                inner = [first]
+            else:
+                inner = [gen.gen_transport(rnd, g, prices, T, nm + '_tr', inn, ext),
+                         zero_orders(rnd, g, gen.gen_orderbook(rnd, g, prices, T, nm + '_o', rnd.choice([inn, ext]), allow_mip=False))]
+                inner[0]['args'].pop('costs_time_series', None)
+                if inner[1]['nodes'][0] == ext:
+                    quiet.add(ext)
+            inner.append(gen.gen_simple_contract(rnd, g, prices, T, nm + '_c', inn) if rnd.random() < 0.6 else
+                         gen.gen_storage(rnd, g, prices, T, nm + '_s', [inn], False, False))
+            for ia in inner[1:]:
+                if ia['type'] != 'OrderBook' and rnd.random() < 0.4:
+                    gen.put_window(ia['args'], gen.window(rnd, g, kinds=['inside', 'start_only', 'end_only', 'straddle_end', 'straddle_start']))
+            a = {'type': 'StructuredAsset', 'name': nm, 'nodes': [ext], 'inner': inner, 'inner_nodes': [inn], 'args': {}}
+        what.append(kind)
+        carriers.append(a)
+    # companions
+    for n in node_names:
+        if rnd.random() < 0.6:
+            companions.append({'type': 'SimpleContract', 'name': 'mkt%d' % (len(companions) + 1), 'nodes': [n],
+                               'args': {'min_cap': -40.0, 'max_cap': 40.0, 'price': gen.price_key(rnd, prices, T)}})
+    for _ in range(rnd.randint(0, 3)):
+        kind = rnd.choice(['simple', 'simple', 'contract', 'storage', 'storage2', 'transport', 'ext_transport', 'orderbook', 'zero_cap', 'zero_cap'])
+        nm = 'co%d' % (len(companions) + 1)
+        node, two = rnd.choice(node_names), rnd.sample(node_names, 2)
+        if kind == 'simple':
+            a = gen.gen_simple_contract(rnd, g, prices, T, nm, node)
+        elif kind == 'contract':
+            a = gen.gen_contract(rnd, g, prices, T, nm, node)
+        elif kind in ('storage', 'storage2'):
+            a = gen.gen_storage(rnd, g, prices, T, nm, [node] if kind == 'storage' else two, allow_mip=True, allow_blocks=False)
+        elif kind in ('transport', 'ext_transport'):
+            a = gen.gen_transport(rnd, g, prices, T, nm, two[0], two[1], ext=(kind == 'ext_transport'))
+        elif kind == 'orderbook':
+            a = gen.gen_orderbook(rnd, g, prices, T, nm, node, allow_mip=False)
+        else:
+            # zero capacities: bounds 0 = 0, the variables and their rows stay
+            z = rnd.choice(['contract', 'storage_in', 'storage_out', 'transport'])
+            if z == 'contract':
+                a = gen.gen_simple_contract(rnd, g, prices, T, nm, node, allow_opts=False)
+                a['args']['min_cap'] = a['args']['max_cap'] = 0.0
+            elif z == 'transport':
+                a = gen.gen_transport(rnd, g, prices, T, nm, two[0], two[1])
+                a['args']['min_cap'] = a['args']['max_cap'] = 0.0
+            else:
+                a = gen.gen_storage(rnd, g, prices, T, nm, [node], allow_mip=False, allow_blocks=False)
+                a['args']['cap_in' if z == 'storage_in' else 'cap_out'] = 0.0
+            what.append('zero_cap:' + z)
+        companions.append(a)
+    # the quiet nodes: companions touching them live outside a dead zone
+    d1 = 0 if rnd.random() < 0.4 else rnd.randint(0, T - 1)
+    d2 = T if rnd.random() < 0.25 else rnd.randint(d1 + 1, T)
+    live = [(L, R) for L, R in ((0, d1), (d2, T)) if L < R]
+    if rnd.random() < 0.85:
+        kept = []
+        for a in companions:
+            if not (quiet & set(a['nodes'])):
+                kept.append(a)
+                continue
+            if not live:
+                continue                                  # (the carrier is alone in its node)
+            if a['type'] == 'OrderBook':
+                o = a['args']['orders']
+                for i in range(len(o['start'])):
+                    w = _live_window(rnd, g, live)
+                    if w is not None and w[0] is not None and w[1] is not None:
+                        o['start'][i], o['end'][i] = gen.dtv(w[0]), gen.dtv(w[1])
+                    else:
+                        o['start'][i], o['end'][i] = gen.dtv(gen.P(g, T + 1)), gen.dtv(gen.P(g, T + 4))
+            else:
+                w = _live_window(rnd, g, live)
+                if w is None:
+                    continue
+                _set_window(a['args'], w)
+            kept.append(a)
+        companions = kept
+        dead = [d1, d2]
+    else:
+        dead = None
+    assets = carriers + companions
+    rnd.shuffle(assets)
+    return {'grid': g, 'nodes': all_nodes, 'prices': prices, 'assets': assets,
+            'degenerate': {'carriers': what, 'quiet': sorted(quiet), 'dead': dead}}
